@@ -305,7 +305,7 @@ def check(model, rep, tier):
             ys, problems = collect.yields(hf.node)
             groups = set()
             shape_ok = bool(ys) and not problems
-            for levels, elt in ys:
+            for levels, elt, _acc in ys:
               if len(levels) != 2:
                 shape_ok = False
                 continue
